@@ -362,12 +362,24 @@ impl Sub {
     }
 }
 
-struct Payload(u32);
+struct Payload(u32, bool);
 impl Payload {
-    /// running counter 1..=89: never equal to a poison pattern (0x00, 0x5A, 0xEE, 0xFF)
+    /// mode false: running counter 1..=89, never equal to a poison pattern (0x00, 0x5A, 0xEE, 0xFF);
+    /// mode true: a sequence over ALL byte values (0x00 and 0xFF included, runs of equal bytes), so
+    /// that value-dependent fast paths are exercised too
     fn next(&mut self) -> u8 {
         self.0 += 1;
-        (1 + (self.0 - 1) % 89) as u8
+        if self.1 {
+            let k = self.0;
+            match k % 7 {
+                0 => 0x00,
+                1 => 0xFF,
+                2 => 0x00,
+                _ => (k.wrapping_mul(37) >> 1) as u8,
+            }
+        } else {
+            (1 + (self.0 - 1) % 89) as u8
+        }
     }
     fn take(&mut self, m: usize) -> Vec<u8> {
         (0..m).map(|_| self.next()).collect()
@@ -395,8 +407,10 @@ pub fn run_io_case(case: &IoCase) -> Result<u64, String> {
     if n == 0 {
         flags |= iofl::ZERO_CAP;
     }
-    let mut pay = Payload(0);
-    let mut pay_twin = Payload(0);
+    // the filling 0x5A selects the full-range payload (0x5A itself is then a possible payload byte too)
+    let wide = case.pattern == 0x5A && case.route % 2 == 0;
+    let mut pay = Payload(0, wide);
+    let mut pay_twin = Payload(0, wide);
     let mut a = Sub::build(n, case.start as usize, case.len as usize, case.route, case.pattern, &mut pay)?;
     let differential = case.api != Api::Std;
     let mut twin = if differential {
@@ -678,6 +692,13 @@ pub fn enum_ops(n: usize, len: usize) -> Vec<IoOp> {
         ops.push(IoOp::WriteFmt(m));
         ops.push(IoOp::ExtendRef(m));
     }
+    if n == 3 || n == 8 {
+        // inputs much longer than any internal chunking threshold one might think of
+        for m in [255u32, 256, 257, 4095, 4096, 4097, 8193, 70000] {
+            ops.push(IoOp::Write(m));
+        }
+        ops.push(IoOp::Read(5000));
+    }
     for d in 0..=(n + 2) as u32 {
         ops.push(IoOp::Read(d));
         ops.push(IoOp::ReadExact(d));
@@ -719,7 +740,7 @@ pub fn io_case_strategy(api: Api, max_ops: usize) -> proptest::strategy::BoxedSt
     let amt = prop_oneof![4 => any::<u16>().prop_map(Amt::Frac), 3 => (0u32..12).prop_map(Amt::At), 2 => (0u32..4).prop_map(Amt::Past), 1 => Just(Amt::Max)];
     proptest::sample::select(caps)
         .prop_flat_map(move |n| {
-            let sz = prop_oneof![4 => 0u32..6, 3 => 0u32..(n + 3), 2 => 0u32..(2 * n + 3), 1 => n.saturating_sub(1)..(n + 2)];
+            let sz = prop_oneof![8 => 0u32..6, 6 => 0u32..(n + 3), 4 => 0u32..(2 * n + 3), 2 => n.saturating_sub(1)..(n + 2), 1 => 4000u32..9000];
             let amt = amt.clone();
             let op = prop_oneof![
                 8 => sz.clone().prop_map(IoOp::Write),
